@@ -1,5 +1,6 @@
 """C01 -- live allocations disjoint, inside owned memory, never written by the allocator."""
-from vlib import build, runner
+import os
+from vlib import build, runner, smallgen
 from checks import poolrun, c07, c06
 
 
@@ -13,18 +14,26 @@ def run(ctx):
         ctx.tie_broken.append('replay driver: ' + str(e)[:300]); rexe = None
     n = 6 if thorough else 1
     cases = poolrun.make_cases(ctx, 40 * n, 40 * n, 20 * n, 15 * n, cfgs)
+    # the small free list driven directly, in lock-step with SmallList (chunk order, free chains, both cursors, every address)
+    ex_list = {c: build.build_harness('invalid', c, ['h_invalid.cpp'], extra=['-I', os.path.join(build.REPO, 'src')]) for c in cfgs}
+    for i in range(20 * n):
+        sc = smallgen.gen_small_chunks(ctx.rng, bads=False)
+        for c in cfgs:
+            cases.append(dict(exe=ex_list[c], script=sc, replay_args=['ordered', 'small'], tag=('list', sc.split('\n')[0], c)))
     res = runner.run_cases(cases, rexe)
     ops = 0; div = 0; per = {}
     for r in res:
         kind, tgt, c = r['case']['tag']; per[kind] = per.get(kind, 0) + 1
         ops += r['summ'].get('ops', 0)
-        mine = [d for d in r['div'] if poolrun.concerns(d, 'C01')]
+        mine = r['div'] if kind == 'list' else [d for d in r['div'] if poolrun.concerns(d, 'C01')]
         if r['rc'] != 0:
             ctx.tie_broken.append('harness exit %d on %s in %s' % (r['rc'], tgt, c))
         if mine:
             div += len(mine); ctx.tie_broken.append('correspondence: %s (%s cfg=%s)' % (mine[0][:300], tgt, c))
         if kind in ('pool', 'coll'):
             msgs = poolrun.live_overlap_oracle(r['log'])
+        elif kind == 'list':
+            msgs = smallgen.live_oracle(r['log'])
         elif kind == 'iter':
             N = int(tgt.split('<')[1].split('>')[0])
             msgs = [m for m in c07.oracle(r['log'], N, 0) if 'overlap' in m or 'outside' in m or 'modified' in m]
@@ -35,10 +44,10 @@ def run(ctx):
             msgs.append('crashed (exit status %d) after: %s' % (r['rc'], r['log'].strip().split('\n')[-1][:80]))
         if msgs and len(ctx.violations) < 3:
             ctx.violation('%s:%s/%s' % (kind, tgt, c), 'C01 fails on the implementation: ' + msgs[0],
-                          dict(harness='h_%s.cpp' % ('pool' if kind == 'coll' else kind), config=c, script=r['case']['script'].split('\n'), all=msgs[:5]))
+                          dict(harness='h_%s.cpp' % ('pool' if kind == 'coll' else 'invalid' if kind == 'list' else kind), config=c, script=r['case']['script'].split('\n'), all=msgs[:5]))
     ctx.tie_broken = ctx.tie_broken[:6]
     ctx.cov.update(dict(
-        tie=dict(kind='pools/collections: Spec acceptance (ranges handed to the lists must be disjoint and inside held blocks, results must be free nodes); stacks and iteration allocators: Exec lock-step; live allocations carry content patterns verified at release and in sweeps; memory returned upstream is checked for later writes',
+        tie=dict(kind='pools/collections: Spec acceptance (ranges handed to the lists must be disjoint and inside held blocks, results must be free nodes); stacks and iteration allocators: Exec lock-step; the real detail::small_free_memory_list driven directly in lock-step with SmallList (chunk order, every free chain, alloc and dealloc cursor, every address returned); live allocations carry content patterns verified at release and in sweeps; memory returned upstream is checked for later writes',
                  configs=cfgs, histories_by_kind=per, histories=len(cases), operations=ops, divergences=div),
         evaluations=len(cases), distinct_nontrivial=len(set(c['script'] for c in cases)),
         rule='seeded histories on memory_pool<node|array|small>, memory_pool_collection (identity/log2), memory_stack, iteration_allocator<1..5> over growing/fixed sources, object placed below and above its memory, with upstream failures; distinct = distinct scripts',
